@@ -154,7 +154,7 @@ static int reb_tree_particle_is_inside_cell(const struct reb_simulation* const r
   * @param r REBOUND simulation to operate on
   * @param node is the pointer to a node cell
   */
-static struct reb_treecell *reb_simulation_update_tree_cell(struct reb_simulation* const r, struct reb_treecell *node){
+static struct reb_treecell *reb_simulation_update_tree_cell(struct reb_simulation* const r, struct reb_treecell *node, struct reb_particle** reinsert, int* N_reinsert, int* N_allocated_reinsert){
 	int test = -1; /**< A temporary int variable is used to store the index of an octant when it needs to be freed. */
 	if (node == NULL) {
 		return NULL;
@@ -162,7 +162,7 @@ static struct reb_treecell *reb_simulation_update_tree_cell(struct reb_simulatio
 	// Non-leaf nodes	
 	if (node->pt < 0) {
 		for (int o=0; o<8; o++) {
-			node->oct[o] = reb_simulation_update_tree_cell(r, node->oct[o]);
+			node->oct[o] = reb_simulation_update_tree_cell(r, node->oct[o], reinsert, N_reinsert, N_allocated_reinsert);
 		}
 		node->pt = 0;
 		for (int o=0; o<8; o++) {
@@ -199,7 +199,13 @@ static struct reb_treecell *reb_simulation_update_tree_cell(struct reb_simulatio
             r->particles[oldpos] = r->particles[r->N];
             r->particles[oldpos].c->pt = oldpos;
             if (!isnan(reinsertme.y)){ // Do not reinsert if flagged for removal
-                reb_simulation_add(r, reinsertme);
+                // Reinsert only after the walk: this cell is still linked into the tree and about to be freed.
+                if (*N_reinsert>=*N_allocated_reinsert){
+                    *N_allocated_reinsert = *N_allocated_reinsert ? *N_allocated_reinsert * 2 : 32;
+                    *reinsert = realloc(*reinsert, sizeof(struct reb_particle)*(*N_allocated_reinsert));
+                }
+                (*reinsert)[*N_reinsert] = reinsertme;
+                (*N_reinsert)++;
             }
         }
 		free(node);
@@ -293,16 +299,23 @@ void reb_simulation_update_tree(struct reb_simulation* const r){
 	if (r->tree_root==NULL){
 		r->tree_root = calloc(r->N_root_x*r->N_root_y*r->N_root_z,sizeof(struct reb_treecell*));
 	}
+    struct reb_particle* reinsert = NULL; // Particles which left their cell. Added back once all cells have been visited.
+    int N_reinsert = 0;
+    int N_allocated_reinsert = 0;
 	for(int i=0;i<r->N_root;i++){
 
 #ifdef MPI
 		if (reb_communication_mpi_rootbox_is_local(r, i)==1){
 #endif // MPI
-			r->tree_root[i] = reb_simulation_update_tree_cell(r, r->tree_root[i]);
+			r->tree_root[i] = reb_simulation_update_tree_cell(r, r->tree_root[i], &reinsert, &N_reinsert, &N_allocated_reinsert);
 #ifdef MPI
 		}
 #endif // MPI
 	}
+    for(int i=0;i<N_reinsert;i++){
+        reb_simulation_add(r, reinsert[i]);
+    }
+    free(reinsert);
     r->tree_needs_update= 0;
 }
 static void reb_tree_delete_cell(struct reb_treecell* node){
